@@ -48,6 +48,7 @@ package encryption
 // the pool built from the configured CA; disabling verification is the only way to relax this.
 //@ contract GetServerTLSConfig
 //@   props C19
+//@   assigns nothing
 //@   ensures @disabled: !enabled(serverConfig) ==> tlsConfig == nil && err == nil
 //@   ensures @error: err != nil ==> tlsConfig == nil
 //@   ensures @verify: enabled(serverConfig) && !serverConfig.SkipCAVerification && err == nil ==>
@@ -60,6 +61,7 @@ package encryption
 // against the configured name and, when a CA path is given, against the pool built from it.
 //@ contract GetClientTLSConfig
 //@   props C19
+//@   assigns nothing
 //@   ensures @disabled: !enabled(clientConfig) ==> tlsConfig == nil && err == nil
 //@   ensures @error: err != nil ==> tlsConfig == nil
 //@   ensures @verify: enabled(clientConfig) && !clientConfig.SkipCAVerification && err == nil ==>
